@@ -3,6 +3,7 @@ package types
 import (
 	"cosmossdk.io/errors"
 	sdk "github.com/cosmos/cosmos-sdk/types"
+	"math"
 	"time"
 )
 
@@ -59,6 +60,12 @@ func ValidateCreateVestingAccount(fromAddress string, toAddress string, amount s
 	}
 	if startTime > endTime {
 		return nil, nil, errors.Wrapf(ErrParam, "create vesting account - start time is after end time error (%s > %s)", time.Unix(startTime, 0).String(), time.Unix(endTime, 0).String())
+	}
+	if startTime < 0 && endTime > math.MaxInt64+startTime {
+		// the vesting account computes endTime - startTime as int64: with a start this far in the
+		// past the difference wraps around, the vested amount becomes negative and every use of
+		// the account (sending, fee payment, balance queries) panics in x/bank
+		return nil, nil, errors.Wrapf(ErrParam, "create vesting account - vesting period from %d to %d is too long", startTime, endTime)
 	}
 	fromAccAddress, err = sdk.AccAddressFromBech32(fromAddress)
 	if err != nil {
